@@ -17,6 +17,10 @@ fn main() {
     }
     let mut shard = Shard::new("raw", &prop, &replay_dir);
     shard.replay_args = vec!["--family".into(), family.clone()];
+    if let Some(k) = a.get("kinds") {
+        shard.replay_args.push("--kinds".into());
+        shard.replay_args.push(k.to_string());
+    }
     let seeds: Vec<u64> = if let Some(s) = a.get("replay") { vec![s.parse().expect("seed")] } else { (start..start + count).map(|i| splitmix(base, i)).collect() };
     for seed in seeds {
         let (out, desc): (vh::engine::sim::Outcome, serde_json::Value) = match family.as_str() {
@@ -37,7 +41,8 @@ fn main() {
                 (run_fuzz(&sc), d)
             }
             "flood" => {
-                let sc = vh::engine::flood::gen_flood(seed);
+                let only: Vec<String> = a.str("kinds", "").split(',').filter(|x| !x.is_empty()).map(|x| x.to_string()).collect();
+                let sc = vh::engine::flood::gen_flood_kinds(seed, &only);
                 let d = sc.to_json();
                 (vh::engine::flood::run_flood(&sc), d)
             }
